@@ -914,7 +914,7 @@ class ComposerBinary(ComposerBase):
         return mpint_bytes
 
     def compose_mpint(self, value, length):
-        mpint_bytes = self._compose_mpint(value, length, self.byte_order)
+        mpint_bytes = self._compose_mpint(value, max(length, value.bit_length() // 32 + 1), self.byte_order)
         if length < len(mpint_bytes):
             raise InvalidValue(length, type(self), 'mpint_length')
 
